@@ -114,12 +114,18 @@ impl Handler for Pager {
             _ => (None, None),
         };
         // which page does this paging state ask for?
-        let idx = match &paging_state {
-            None => Some(0),
-            Some(ps) => script.states.iter().position(|s| s.as_ref() == Some(ps)).map(|i| i + 1),
-        };
         let mut st = self.state.lock().unwrap();
         let q = st.entry(qid).or_default();
+        // (two consecutive pages may carry the SAME paging-state bytes - an opaque cursor handle, say: the node
+        // then goes by its own progress; otherwise the state identifies the page)
+        let idx = match &paging_state {
+            None => Some(0),
+            Some(ps) => {
+                let next = q.last_sent.map(|l| l + 1).unwrap_or(0);
+                let cands: Vec<usize> = script.states.iter().enumerate().filter(|(_, s)| s.as_ref() == Some(ps)).map(|(i, _)| i + 1).collect();
+                if cands.contains(&next) { Some(next) } else { cands.first().copied() }
+            }
+        };
         let Some(idx) = idx else {
             q.violations.push(format!("page request carries a paging state the node never issued: {:?}", paging_state.map(|p| fw::hex(&p))));
             drop(st);
@@ -243,6 +249,11 @@ fn gen_script(rng: &mut Rng, qid: u64, exhaustive_fault: Option<(usize, PageFaul
             s.extend_from_slice(&(p as u32).to_be_bytes());
             states.push(Some(s));
         }
+    }
+    // legal and unusual: two consecutive non-final pages carrying the very same paging-state bytes
+    if n_pages >= 3 && rng.chance(1, 6) {
+        let p = rng.usize(0, n_pages - 3);
+        states[p + 1] = states[p].clone();
     }
     // legal and unusual: "more pages" with a paging state of length ZERO (at most one page per result, so
     // that the node can still tell the pages apart)
@@ -404,6 +415,9 @@ fn judge(o: &mut Outcome, s: &Script, r: &ScriptOut) {
     let all: Vec<i64> = s.pages.iter().flatten().copied().collect();
     let key = fw::hash64(format!("{:?}{:?}{:?}{}{}{}{}", s.pages.iter().map(|p| p.len()).collect::<Vec<_>>(), s.faults, s.states.iter().map(|x| x.as_ref().map(|b| b.len())).collect::<Vec<_>>(), s.prepared, s.idempotent, s.fallthrough, s.consumer).as_bytes());
     o.case(key, s.pages.len() > 1 || !all.is_empty());
+    if s.states.windows(2).any(|w| w[0].is_some() && w[0] == w[1]) {
+        o.class("paging-state:same-bytes-on-consecutive-pages");
+    }
     if s.states.iter().any(|x| x.as_ref().is_some_and(|b| b.is_empty())) {
         o.class("paging-state:zero-length-with-more-pages");
     }
@@ -830,6 +844,7 @@ pub fn run(ctx: &Ctx) -> Outcome {
         "fault:Unprepared",
         "fault:NodeDown",
         "paging-state:zero-length-with-more-pages",
+        "paging-state:same-bytes-on-consecutive-pages",
         "fault:late-answer-after-client-timeout",
         "late-answer:other-stream-undisturbed",
         "pager:execute_iter",
